@@ -91,15 +91,31 @@ def rule_a(ctx, ix, f):
     ctx.describe(R, 'the array-cache key covers every result-influencing parameter; stored key = compared key', floor=12)
     params = f.params
     need_common = {'data', 'bounds', 'target_data', 'broadcast'}
-    keys = [st for st in walk_no_nested(f.node) if isinstance(st, ast.Assign) and unparse(st.targets[0]) == 'current_array_hash'
-            and isinstance(st.value, ast.Tuple)]
+    from .. import cond as _c
+    # the two key tuples with the condition each is built under: two assignments in the arms of an if/else, or one assignment
+    # of a conditional expression
+    keydefs = []
+    for st in walk_no_nested(f.node):
+        if isinstance(st, ast.Assign) and unparse(st.targets[0]) == 'current_array_hash':
+            base = _c.path_condition(f.node, st, expand=False) or ('const', True)
+            if isinstance(st.value, ast.Tuple):
+                keydefs.append((st, st.value, base))
+            elif isinstance(st.value, ast.IfExp) and isinstance(st.value.body, ast.Tuple) and isinstance(st.value.orelse, ast.Tuple):
+                t_ = _c.formula(st.value.test)
+                keydefs.append((st, st.value.body, _c.And(base, t_)))
+                keydefs.append((st, st.value.orelse, _c.And(base, _c.Not(t_))))
     pm = parent_map(f.node)
-    if len(keys) != 2:
+    if len(keydefs) != 2:
         raise AnalysisError('compute_fixed_resolution_buffer: the two array-hash definitions are not recognised')
+
+    class _K(object):
+        def __init__(self, st, value, pc):
+            self.st, self.value, self.pc = st, value, pc
+            self.lineno = st.lineno
+    keys = [_K(*k) for k in keydefs]
     for st in keys:
         # value request (no selection given) or mask request: read off the condition under which this key is built
-        from .. import cond as _c
-        pc_ = _c.path_condition(f.node, st, expand=False) or ('const', True)
+        pc_ = st.pc
         none_ = _c.T('is|None|subset_state')
         try:
             if _c.implies(pc_, none_) and pc_ != ('const', True):
@@ -107,15 +123,15 @@ def rule_a(ctx, ix, f):
             elif _c.implies(pc_, _c.Not(none_)) and pc_ != ('const', True):
                 variant = 'mask'
             else:
-                raise AnalysisError('compute_fixed_resolution_buffer: which request the key `%s` belongs to is not recognised' % norm(st))
+                raise AnalysisError('compute_fixed_resolution_buffer: which request the key `%s` belongs to is not recognised' % norm(st.st))
         except ValueError:
-            raise AnalysisError('compute_fixed_resolution_buffer: the condition of the key `%s` is too large' % norm(st))
+            raise AnalysisError('compute_fixed_resolution_buffer: the condition of the key `%s` is too large' % norm(st.st))
         names = _names(st.value, f.node)
         need = need_common | ({'target_cid'} if variant == 'value' else {'subset_state'})
         for p in sorted(need):
             ctx.ob(R, '%s key[%s]' % (f.construct, variant), 'parameter %s is part of the %s-request cache key' % (p, variant), p in names,
                    detail='the %s-request cache key %s omits %s: a later request under the same cache id that differs only in %s is '
-                          'answered with the array of the earlier request' % (variant, unparse(st.value), p, p), where=where(f, st))
+                          'answered with the array of the earlier request' % (variant, unparse(st.value), p, p), where=where(f, st.st))
     # hit test compares the stored hash with the current one and returns the stored array
     hits = [n for n in walk_no_nested(f.node) if isinstance(n, ast.If) and "['hash']" in unparse(n.test) and 'ARRAY_CACHE' in unparse(n.test)]
     ok = len(hits) == 1 and 'current_array_hash' in unparse(hits[0].test) and isinstance(hits[0].test, ast.Compare) and \
@@ -143,7 +159,7 @@ def rule_a(ctx, ix, f):
                where=where(f, st))
     # the stored key is the compared one with only the bounds replaced by their wildcard form
     upd = [st for st in walk_no_nested(f.node) if isinstance(st, ast.Assign) and unparse(st.targets[0]) == 'current_array_hash'
-           and not isinstance(st.value, ast.Tuple)]
+           and not isinstance(st.value, ast.Tuple) and not any(st is k_.st for k_ in keys)]
     ok = len(upd) == 1 and unparse(upd[0].value).replace(' ', '') == 'current_array_hash[:1]+(cache_bounds,)+current_array_hash[2:]'
     ctx.idiom(R, f.construct + ' wildcard', 'only the bounds slot of the key is replaced by its wildcard form before storing',
               accepted=ok, absent=not upd,
@@ -168,7 +184,7 @@ def rule_a(ctx, ix, f):
                   % (pc,), where=g.where)
     for st in keys:
         ctx.ob(R, f.construct + ' bounds slot', 'bounds is the second element of the key (the slot the wildcard replaces)',
-               unparse(st.value.elts[1]) == 'bounds', detail='bounds is not at index 1 of %s' % unparse(st.value), where=where(f, st),
+               unparse(st.value.elts[1]) == 'bounds', detail='bounds is not at index 1 of %s' % unparse(st.value), where=where(f, st.st),
                nontrivial=False)
 
 
